@@ -71,11 +71,11 @@ _EXPR = ['a', '1', 'a.b', 'a(b)', 'a[1]', '(a, b)', '[a for a in b]', 'a if b el
 _SIMPLE = ['pass', 'a = %s', 'return %s', 'import a.b as c', 'from . import (a, b)', 'del a', 'global a',
            'assert %s, %s', 'raise %s from %s', '%s', 'a: int = %s', 'a += %s', 'break', 'continue',
            'nonlocal a', 'print %s', 'a = b = %s', 'from __future__ import annotations', 'x = yield %s',
-           '%s; %s', 'a, *b = %s', 'import a, b']
+           '%s; %s', 'a, *b = %s', 'import a, b', 'type X[T] = %s']
 _COMPOUND = ['if %s:', 'while %s:', 'for a in %s:', 'def f(a, b=%s, *c, d, **e):', 'class C(%s):', 'with %s as a:',
              'try:', 'async def g():', 'def h(a, /, b): # c', '@%s\ndef k():', 'else:', 'elif %s:', 'except %s as e:',
              'finally:', 'async for a in %s:', 'match %s:', 'case %s:', 'lambda: %s', 'def m(*, a) -> %s:',
-             'class D:', 'async with %s:']
+             'class D:', 'async with %s:', 'def t[T](a, b=%s):', 'class G[T, U]:', 'def u[T: int, *V](x: T) -> T:']
 
 
 def _fill(rng, t):
